@@ -2,7 +2,7 @@
 from vt.props import common_spaces as cs
 CLAIM = ('Start/goal marks of a planner-data graph: real PlannerData::markStartState/markGoalState/isStartVertex/isGoalVertex/numStart/GoalVertices/getStart/GoalIndex '
          '(real std::map lookup, std::vector, std::sort, std::binary_search) for case-split mark sequences over 3 vertices with ARBITRARY distinct vertex indices: a vertex is reported as '
-         'start/goal exactly when it was marked so, duplicates are not stored twice, non-vertices are refused. '
+         'start/goal exactly when it was marked so, duplicates are not stored twice, non-vertices are refused. The comparator behind getCommonSubspaces/partial copies is a strict weak order whose equivalence classes are single (dimension, name) pairs. '
          'copyState / serialize+deserialize round trips of the real SO(2), R^n, Time, Discrete code reproduce every state bit for bit and write only their own serialization length')
 OUT = 'StateStorage, PlannerDataStorage, the boost graph of PlannerData (vertices/edges/weights) (boost::serialization over iostreams is outside the encodable fragment): marker/signature/truncation rejection is NOT checked; compound/wrapper delegation (thorough)'
 ASSUMPTIONS = []
@@ -22,6 +22,8 @@ def queries(tier):
           for k, sq in seqs]
     pd.append(Query('plannerdata_marks[ops=1]', 'C09_pdata.cpp', 'harness_marks', tus=['src/ompl/base/src/PlannerData.cpp'], defines={'NOPS': 1}, unwind=5, unwindset=us, timeout=to,
                     bound='one mark call, symbolic state and kind'))
+    pd.append(Query('common_subspace_order', 'C09_common.cpp', 'harness_common_subspace_order', unwind=6, timeout=to,
+                    bound='three subspace locations, dimensions in [0,3], one-letter names over 4 letters'))
     return pd + [cs.so2('roundtrip', tier, bound='every 64-bit pattern'), cs.rv('roundtrip', tier, 1, bound='dim 1, every bit pattern', unwind=12),
             cs.rv('roundtrip', tier, 3, bound='dim 3, every bit pattern', unwind=30), cs.misc('misc_roundtrip', tier, bound='every bit pattern'),
             cs.compound('copy_serialize', tier, bound='3 stub components of serialization lengths 1,2,3')]
